@@ -7,6 +7,20 @@ import subprocess
 ROOT = os.path.dirname(os.path.dirname(os.path.abspath(__file__)))
 
 CHECKS = {
+    "C05": ("model_checking",
+            "exhaustive enumeration of all small commit-DAG x version-set x mode x flag states through the real selection code on a real SQLite index with a fake git that is conformance-checked against real git",
+            "All commit DAGs <=3 (4) commits x HEAD x <=3 versions x git modes x flags: the real RunExperiment/VersionIndex/Git code selects; "
+            "the documented rule is the oracle; end-to-end via cond where / cond run / COND_DEPS; every fake-git answer used is compared "
+            "with real git on real repositories (traces_validated_against_impl).",
+            "Trusted: reference rule written from the docs. Bounds: <=4 commits, <=3 versions per task.",
+            "DESIGN.md §4 C05, §3"),
+    "C07": ("model_checking",
+            "exhaustive enumeration of graphs x package nestings x cache states x argument alphabets; every spawn at the virtual process layer compared with a reference contract",
+            "Every spawn (argv, shell, cwd, COND_NAME, COND_OUT, COND_DEPS) of every enumerated scenario is compared with the reference "
+            "contract, dependents' COND_DEPS with the spawn-time COND_OUT of deps that ran, and conductor.lib is evaluated under that exact "
+            "environment.",
+            "Trusted: observation at the Popen boundary (bound to real bash by the conformance check). Bounds: <=3 tasks, nesting <=2, args/options <=2 entries.",
+            "DESIGN.md §4 C07"),
     "C14": ("exploration",
             "exhaustive enumeration of all ordered dependency graphs on <=3 names (+dangling/duplicate variants) against a reachability/cycle reference",
             "Every directed graph on <=3 task names as ordered dep lists, every target, 1-2 COND files, through the real TaskIndex, "
